@@ -105,7 +105,7 @@ def main():
                 "origin": "written by an independent sub-agent that saw only the property "
                           "text and a scratch worktree of /repo (nothing from /verif)"
                           + ("; second round: told which earlier seeds to avoid repeating"
-                             if SRC.endswith(("wt2", "wt3", "wt4", "wt5", "wt6", "wt7", "wt8", "wt9")) else ""),
+                             if SRC.endswith(("wt2", "wt3", "wt4", "wt5", "wt6", "wt7", "wt8", "wt9", "wt10")) else ""),
                 "needs_to_manifest": _needs(notes),
                 "confirmed_by_me": {
                     "how": "tools/confirm_seed.sh in a fresh scratch worktree of /repo: demo at "
